@@ -299,7 +299,15 @@ class PathEnum:
                     break
                 elif n.kind == 'assert':
                     cond = self.operand(st, nid, d['cond'])
-                    if not cond_ok(st, cond, 'in', (1 if d['expected'] else 0,)):
+                    exp = 1 if d['expected'] else 0
+                    # the failing outcome is a (clean) panic path of its own
+                    st2 = _fork(st)
+                    if cond_ok(st2, cond, 'notin', (exp,)):
+                        pp = self._finish(st2, nid, None)
+                        pp.panicked = True
+                        pp.end = ('assert', nid, d.get('msg'))
+                        out.append(pp)
+                    if not cond_ok(st, cond, 'in', (exp,)):
                         break
                 elif n.kind == 'return':
                     if n.ctx == 0:
@@ -345,6 +353,9 @@ class PathEnum:
 
 def norm_cond(disc, kind, vals):
     """Rewrite a condition on discr(trybranch(k, x)) into a condition on discr(x)."""
+    if disc[0] == 'discr' and disc[1][0] == 'okor':
+        inner = simplify(('discr', disc[1][1]))
+        return norm_cond(inner, kind, tuple(1 - v if v in (0, 1) else v + 100 for v in vals))
     if disc[0] == 'discr' and disc[1][0] == 'trybranch':
         k, x = disc[1][1], disc[1][2]
         inner = simplify(('discr', x))
@@ -475,6 +486,8 @@ class Folder:
             return self.ev(t[2])
         if k == 'field' and t[1][0] == 'downcast' and t[1][1][0] == 'tryconv' and t[2] == '0':
             return self.ev(t[1][1][2])
+        if k == 'discr' and t[1][0] == 'okor':
+            return 1 - self.ev(simplify(('discr', t[1][1])))
         if k == 'discr' and t[1][0] == 'tryconv':
             tb = ty_bits(t[1][1])
             v = self.ev(t[1][2])
